@@ -30,6 +30,10 @@ type Relay struct {
 	// Cap is the number of messages a box buffers before Send blocks.
 	Cap int
 
+	// frozen boxes deliver nothing to their reader (a reader that has died
+	// without closing its stream), see FreezeReads.
+	frozen map[string]bool
+
 	// Fault is consulted (under no lock) for every relay operation.
 	Fault func(op RelayOp) RelayAction
 
@@ -112,6 +116,21 @@ func (r *Relay) Messages() [][]byte {
 	r.mu.Lock()
 	defer r.mu.Unlock()
 	return append([][]byte{}, r.msgs...)
+}
+
+// FreezeReads makes the box deliver nothing to its reader any more (on) or
+// resumes delivery: the reader process has died, or hangs, without closing its
+// stream. Writers keep filling the box until it is full and then block.
+func (r *Relay) FreezeReads(id string, on bool) {
+	r.mu.Lock()
+	if r.frozen == nil {
+		r.frozen = map[string]bool{}
+	}
+	r.frozen[id] = on
+	if b, ok := r.boxes[id]; ok {
+		kick(b.wake)
+	}
+	r.mu.Unlock()
 }
 
 // Boxes returns the ids of the existing boxes.
@@ -407,7 +426,7 @@ func (s *recvStream) Recv() (*hashmailrpc.CipherBox, error) {
 			return fail(status.Error(codes.Unknown, "EOF"))
 		}
 		var wait time.Duration = -1
-		if len(b.q) > 0 {
+		if len(b.q) > 0 && !r.frozen[s.id] {
 			wait = time.Until(b.q[0].at)
 			if wait <= 0 {
 				m := b.q[0]
